@@ -144,3 +144,99 @@ class Preempter:
             self.mon.set_local_events(TOOL, co, 0)
         self.mon.free_tool_id(TOOL)
         self.ok = False
+
+
+class ModuleState:
+    """module-level (and class-level) mutable state of the given modules, so that every trial can start from the state a
+    freshly started process has: containers are restored IN PLACE (other modules may hold references to them) and rebound;
+    plain values are rebound"""
+    CONTAINERS = (list, dict, set, bytearray)
+
+    def __init__(self, modules):
+        import copy
+        self.copy = copy
+        self.slots = []        # (owner, name, original object, deep copy)
+        for mod in modules:
+            self._scan(mod, vars(mod), mod.__name__)
+            for obj in list(vars(mod).values()):
+                if isinstance(obj, type) and obj.__module__ == mod.__name__:
+                    self._scan(obj, vars(obj), mod.__name__)
+
+    def _scan(self, owner, namespace, modname):
+        for name, v in list(namespace.items()):
+            if name.startswith("__"):
+                continue
+            if isinstance(v, (types.ModuleType, types.FunctionType, type, staticmethod, classmethod, property)) or callable(v):
+                continue
+            try:
+                saved = self.copy.deepcopy(v)
+            except Exception:
+                continue
+            self.slots.append((owner, name, v, saved))
+
+    def restore(self):
+        for owner, name, orig, saved in self.slots:
+            try:
+                if isinstance(orig, dict):
+                    orig.clear()
+                    orig.update(self.copy.deepcopy(saved))
+                elif isinstance(orig, (list, bytearray)):
+                    orig[:] = self.copy.deepcopy(saved)
+                elif isinstance(orig, set):
+                    orig.clear()
+                    orig.update(self.copy.deepcopy(saved))
+                if getattr(owner, name, None) is not orig:
+                    setattr(owner, name, orig if isinstance(orig, self.CONTAINERS) else self.copy.deepcopy(saved))
+            except Exception:
+                pass
+
+
+def safe(fn, *a):
+    try:
+        return fn(*a)
+    except Exception as e:
+        return Raised(e)
+
+
+def trials(pre, state, setup, job_a, job_b, rng, npoints, aftermath=None):
+    """for a sample of A's source locations: from pristine module state and a fresh context (setup()), A runs and is held
+    at the location while B runs to completion on the SAME context; afterwards both jobs run once more, alone, on that
+    context and then on a fresh one (what a race left behind).  Yields dicts with the solo values (want_a, want_b) and
+    what the threads and the aftermath runs got"""
+    state.restore()
+    want_a = safe(job_a, setup())
+    state.restore()
+    want_b = safe(job_b, setup())
+    state.restore()
+    want_after = safe(aftermath, setup()) if aftermath else None
+    state.restore()
+    ctx0 = setup()
+    total = pre.count(lambda: job_a(ctx0))
+    for k in pre.points_by_location(rng, npoints):
+        state.restore()
+        ctx = setup()
+        a, b, ran = pre.run(lambda: job_a(ctx), lambda: job_b(ctx), k)
+        if not ran:
+            continue
+        after_a, after_b = safe(job_a, ctx), safe(job_b, ctx)
+        fresh = setup()
+        later_a, later_b = safe(job_a, fresh), safe(job_b, fresh)
+        yield {"k": k, "total": total, "a": a, "b": b, "after_a": after_a, "after_b": after_b, "later_a": later_a,
+               "later_b": later_b, "want_a": want_a, "want_b": want_b,
+               "aftermath": safe(aftermath, fresh) if aftermath else None, "want_aftermath": want_after}
+    state.restore()
+
+
+def disagreements(t):
+    """[(who, got, want)] of one trial"""
+    out = []
+    for who, got, want in (("thread A", t["a"], t["want_a"]), ("thread B", t["b"], t["want_b"]),
+                           ("the same call afterwards (A's)", t["after_a"], t["want_a"]),
+                           ("the same call afterwards (B's)", t["after_b"], t["want_b"]),
+                           ("a later call on a fresh object (A's)", t["later_a"], t["want_a"]),
+                           ("a later call on a fresh object (B's)", t["later_b"], t["want_b"])):
+        if got != want:
+            out.append((who, got, want))
+    if t.get("aftermath") != t.get("want_aftermath"):
+        out.append(("what the process computes after the two threads have finished", t["aftermath"], t["want_aftermath"]))
+    return out
